@@ -8,6 +8,9 @@ CHECKS = {
          "Every type of the bounded universe and every ordered pair is compared with an independent structural model: Equals <=> canonical-string equality (hence an equivalence separating every structural difference), TestConformance <=> reference conformance, HasDynamicTypes, JSON round trip, idempotent stripping. Exhaustive inside the bound; nothing outside it.",
          "trusted: the checker's TS model and canonical string; bound: depth<=2 (+depth-3 mutant family), <=2 attributes (+3-attr cases), tuple width<=2 (+3/4 cases)", "§3 C07"),
 }
+CHECKS["C01"] = ("exploration", "E1", "bounded exhaustive enumeration of (operation, operand tuple, weakening) triples; abstract run compared with concrete run through a reference concretisation relation",
+  "All 21 operation methods x every wholly known operand tuple of the bounded value universe x every weakening of <=2 positions (root or nested) to unknowns with refinements true of the replaced part or to DynamicVal: the weakened call must not fail and its result must admit the concrete result (type constraint, nullness, numeric bounds, prefix, length bounds, known parts); wholly known in => wholly known, non-null out.",
+  "trusted: admits() relation (DESIGN app. A), weakening generator; bound: leaf alphabets, collections <=2 members (sets <=3), depth<=2, k<=2 positions", "§3 C01")
 NOT_YET = {}
 props = [json.loads(l) for l in open('/verif/properties.jsonl')]
 checks = []
